@@ -251,6 +251,7 @@ func C03(rep *ev.Reporter, tier string) {
 	gen = func(emit func(Case)) {
 		gen0(func(c Case) {
 			c.ReuseDC = true // applies to programs calling Forget / Changed
+			c.JSONProv = true
 			emit(c)
 		})
 	}
